@@ -272,7 +272,7 @@ func cmdCheck(args []string) int {
 					skip = true // already reported
 				}
 			}
-			if !skip && *only == "" {
+			if !skip && *only == "" && !*writeLedger {
 				violate(n, "obligation recorded in the ledger was not generated from the current tree", map[string]any{"verdict": "missing"})
 			}
 		}
